@@ -216,14 +216,37 @@ func archOf(a string) binary.ByteOrder {
 // families that use it (they only use in-domain Files) and is surfaced as an
 // empty medium, which every consumer then reports.
 func encodeModelFile(mf *ModelFile, arch string) []byte {
+	return encodeModelFileInto(mf, arch, 0)
+}
+
+// sinkPrefix is what a prefilled sink holds before Encode appends to it.
+func sinkPrefix(n int) []byte {
+	b := make([]byte, n)
+	for i := range b {
+		b[i] = 0xA5 ^ byte(i*7)
+	}
+	return b
+}
+
+// encodeModelFileInto encodes into a *bytes.Buffer that already holds prefix
+// bytes (a caller appending a file to what it wrote before) and returns what
+// Encode appended. If the earlier bytes were touched, the whole buffer is
+// returned: the caller's stream is then damaged and no oracle accepts it.
+func encodeModelFileInto(mf *ModelFile, arch string, prefix int) []byte {
 	f, err := buildModelFile(mf)
 	if err != nil {
 		return nil
 	}
 	var buf bytes.Buffer
+	pre := sinkPrefix(prefix)
+	buf.Write(pre)
 	defer func() { recover() }()
 	if err := fit.Encode(&buf, f, archOf(arch)); err != nil {
 		return nil
 	}
-	return buf.Bytes()
+	out := buf.Bytes()
+	if len(out) < prefix || !bytes.Equal(out[:prefix], pre) {
+		return out
+	}
+	return out[prefix:]
 }
